@@ -15,6 +15,7 @@ from . import c04
 LEVEL = 'exploration'
 TECHNIQUE = "runtime monitoring of the client's writes: strict independent frame decoder and reference zlib peer on every API call"
 BUDGET_S = {'quick': 30, 'thorough': 200}
+CASE_CPU_LIMIT_S = None     # a case is a block of up to thousands of scheduled executions
 REQUIRED = {'all': ['oracle.nested_call_runs_on_a_compressed_connection', 'oracle.transport_fault_calls', 'oracle.accepted_calls_decoded', 'oracle.rejected_calls_checked', 'oracle.rsv1_frames_inflated',
                     'oracle.mask_key_sweep_calls']}
 RULE = ('API calls (send_text/binary/json/ping/pong, close) made on a Ready simulated connection through the '
@@ -203,6 +204,13 @@ def cases(tier, seed, i, n):
                     calls.insert(2, dict(name='send_text', args=['text ' * 7]))
                     calls.insert(4, dict(name='send_ping', args=[b'pp']))
                     yield dict(kind='hist', mode=mode, mask=None, calls=calls, faults=[['sendall', k, fk]])
+                    if mode.get('z') and fk in ('timeout', 'runtime', 'kbint', 'sysexit'):
+                        # the same with messages that share most of their content: whatever the failed (never written)
+                        # message left in the compression context, the later ones must not refer back to it
+                        words = b'the same words again and again, the same words again and again. '
+                        calls = [dict(name='send_binary', args=[(words * 40)[:n] + bytes([j])]) for j, n in enumerate((300, 200, 900, 2500, 120, 600))]
+                        calls.insert(3, dict(name='send_text', args=[(words * 5).decode()]))
+                        yield dict(kind='hist', mode=mode, mask=None, calls=calls, faults=[['sendall', k, fk]])
         # (1d) a call nested in the socket write of another call on the same thread
         for outer in (['send_binary', b'o' * 300], ['send_text', 'outer ' * 40], ['send_binary', b'O' * 70000]):
             for inner in (['send_ping', b'inner'], ['send_text', 'inner'], ['close', 1000, 'inner'], ['send_pong', b'']):
